@@ -141,6 +141,84 @@ def run_lean(scenarios, jobs=8):
     return [json.loads(l) for l in out]
 
 
+
+def run_isolated(scenarios, binary=None, timeout=20.0, mem_bytes=8 << 30, jobs=8):
+    """one harness process per worker, one scenario at a time; a process that dies or does not answer within `timeout`
+    is replaced and the scenario gets {"crash": …} / {"hang": …} as its result. The child's address space is capped."""
+    import resource
+    import select
+    import threading
+    binary = binary or os.path.join(BIN, "harness")
+    results = [None] * len(scenarios)
+    idx = list(range(len(scenarios)))
+    lock = threading.Lock()
+
+    def limit():
+        resource.setrlimit(resource.RLIMIT_AS, (mem_bytes, mem_bytes))
+
+    def spawn():
+        return subprocess.Popen([binary], stdin=subprocess.PIPE, stdout=subprocess.PIPE, stderr=subprocess.PIPE, preexec_fn=limit,
+                                env=dict(os.environ, GOMEMLIMIT="2GiB", GOGC="50"))
+
+    def worker():
+        p = spawn()
+        while True:
+            with lock:
+                if not idx:
+                    break
+                i = idx.pop(0)
+            line = (json.dumps(scenarios[i]) + "\n").encode()
+            try:
+                p.stdin.write(line)
+                p.stdin.flush()
+            except Exception:
+                pass
+            t0 = time.time()
+            buf = b""
+            status = None
+            while True:
+                left = timeout - (time.time() - t0)
+                if left <= 0:
+                    status = "hang"
+                    break
+                r, _, _ = select.select([p.stdout], [], [], min(left, 0.5))
+                if r:
+                    chunk = os.read(p.stdout.fileno(), 1 << 16)
+                    if not chunk:
+                        status = "crash"
+                        break
+                    buf += chunk
+                    if buf.endswith(b"\n"):
+                        break
+                elif p.poll() is not None:
+                    status = "crash"
+                    break
+            if status is None:
+                try:
+                    results[i] = json.loads(buf.decode(errors="replace"))
+                    continue
+                except Exception:
+                    status = "garbled"
+            err = b""
+            try:
+                p.kill()
+                err = p.stderr.read()[-600:]
+            except Exception:
+                pass
+            results[i] = {"id": scenarios[i].get("id"), status: True, "stderr": err.decode(errors="replace"), "wall": time.time() - t0}
+            p = spawn()
+        try:
+            p.stdin.close()
+            p.wait(timeout=5)
+        except Exception:
+            p.kill()
+    ts = [threading.Thread(target=worker) for _ in range(max(1, jobs))]
+    for t in ts:
+        t.start()
+    for t in ts:
+        t.join()
+    return results
+
 # ---- order hints ---------------------------------------------------------------------------------
 
 def add_order_hints(scenario, gores):
